@@ -12,7 +12,7 @@ if [ "$PATCH" = "-e" ]; then
 else
   (cd "$R" && patch -p1 -s < "$PATCH") || { echo "patch failed"; rm -rf "$R"; exit 3; }
 fi
-VERIF_REPO="$R" timeout 1800 /venv/bin/python /verif/check "$PROP" "$@" 2>&1 | grep -v "conda\|WARNING"
+VSIM_OUT="$R/.vsim-out" VERIF_REPO="$R" timeout 1800 /venv/bin/python /verif/check "$PROP" "$@" 2>&1 | grep -v "conda\|WARNING"
 rc=${PIPESTATUS[0]}
 rm -rf "$R"
 echo "mutant rc=$rc"
